@@ -944,4 +944,104 @@ Section PW.
     split; [apply H_commit; auto|split; [exact Wt|]].
     apply (committed_handle_good name s chain P newv big skip r _ H Hfr HP Hlt C1 C2 Ir C3).
   Qed.
+  (* ---------------------------------------------------------------- the root-node cache across other store steps *)
+  (* Good only depends on the reader through the nodes of Old *)
+  Lemma Good_transfer (g g' : getter) (Old Old' : list nat -> ver -> snode -> Prop) :
+    (forall q w b, Old q w b -> Old' q w b) ->
+    (forall q w b t, Old q w b -> Res V g q b t -> Res V g' q b t) ->
+    forall p n t, Good g Old p n t -> Good g' Old' p n t.
+  Proof.
+    intros H1 H2.
+    apply (Good_mut g Old (fun p n t _ => Good g' Old' p n t) (fun p i cs cs' _ => GoodL g' Old' p i cs cs')); intros; try (constructor; auto).
+    eapply Good_ref; eauto.
+  Qed.
+
+  (* a store that answers every node the head root follows identically keeps every Good handle of the head *)
+  Lemma head_Good_transfer (s s' : store) name chain P w t :
+    Inv V s name chain P ->
+    (forall q w0 b, head_old (sget V s name) chain q w0 b -> sget V s' name q w0 = Some b) ->
+    Good (sget V s name) (head_old (sget V s name) chain) [] w t ->
+    Good (sget V s' name) (head_old (sget V s' name) chain) [] w t.
+  Proof.
+    intros HI Hag. set (g := sget V s name) in *. set (g' := sget V s' name) in *.
+    destruct chain as [|vt ch].
+    - apply Good_transfer; [intros q w0 b []|intros q w0 b t0 []].
+    - destruct HI as [_ [HF _]]. inversion HF as [|x l [HR _] _]; subst.
+      destruct (resolution_transfer V g g' [] (SRef (fst vt)) (snd vt) HR Hag) as [_ [T2 _]].
+      apply Good_transfer.
+      + intros q w0 b O. unfold head_old, RR in *. apply T2. exact O.
+      + intros q w0 b t0 O R.
+        destruct (resolution_transfer V g g' q b t0 R) as [T1 _]; [|exact T1].
+        intros q0 w1 b0 R0. apply Hag. unfold head_old, RR in *. eapply Reach_trans; eauto.
+  Qed.
+
+  (* OpsHistory with muxdb's root-node cache: `cache` is the node tree kept for the head root, if any.  A block starts from
+     a reference to the head root or from the kept tree; its commit leaves its own tree; other commits (other tries, forks)
+     and pruner rounds that keep the head leave the kept tree in place; it may be dropped at any time (eviction, restart). *)
+  Inductive OpsHistoryC (name : N) : store -> list (ver * node) -> N -> option wnode -> Prop :=
+  | OC_init s P : (0 < hf V s)%N -> OpsHistoryC name s [] P None
+  | OC_block s chain P cache newv big skip ops w0 w' s' :
+      OpsHistoryC name s chain P cache ->
+      w0 = head_handle chain \/ cache = Some w0 ->
+      hist_fresh V s name newv -> (P <= fst newv)%N ->
+      match chain with [] => True | vt :: _ => (fst (fst vt) < fst newv)%N end ->
+      Forall hop_valid ops -> lrun veqb ops (head_trie chain) <> Nil ->
+      block_from s name w0 newv big skip ops = Some (w', s') ->
+      OpsHistoryC name s' ((newv, lrun veqb ops (head_trie chain)) :: chain) P (Some w')
+  | OC_evict s chain P cache : OpsHistoryC name s chain P cache -> OpsHistoryC name s chain P None
+  | OC_other s chain P cache name' v' es :
+      OpsHistoryC name s chain P cache ->
+      name' <> name \/ (hist_fresh V s name v' /\ (P <= fst v')%N) ->
+      OpsHistoryC name (commit V s name' v' es) chain P cache
+  | OC_prune s newer anchor older P cache base target cps f nodes :
+      OpsHistoryC name s (newer ++ anchor :: older) P cache ->
+      (P <= base)%N -> (base <= target)%N -> (base mod hf V s = 0)%N -> (target mod hf V s = 0)%N ->
+      Forall (fun vt => (target <= fst (fst vt))%N) newer -> (fst (fst anchor) < target)%N ->
+      checkpoint_nodes V f s name (fst anchor) base = Some nodes ->
+      cps_for V name cps nodes ->
+      OpsHistoryC name (prune V s cps base target) (live_after V name newer anchor) target
+                  (match newer with [] => None | _ => cache end).
+
+  Definition cache_good (s : store) name chain (cache : option wnode) : Prop :=
+    forall w, cache = Some w -> Good (sget V s name) (head_old (sget V s name) chain) [] w (head_trie chain).
+
+  Theorem ops_history_cache_sound name s chain P cache :
+    OpsHistoryC name s chain P cache ->
+    History V name s chain P /\ all_wfc chain /\ cache_good s name chain cache.
+  Proof.
+    induction 1 as [s P Hf|s chain P cache newv big skip ops w0 w' s' _ [IH [W CG]] Hst Hfr HP Hlt Hv Hne Hb|
+                    s chain P cache _ [IH [W CG]]|s chain P cache name' v' es _ [IH [W CG]] Hc|
+                    s newer anchor older P cache base target cps f nodes _ [IH [W CG]] HPb Hbt Hab Hat Hnew Hanc Hit Hcps].
+    - split; [apply H_init; auto|split; [constructor|intros w E; discriminate]].
+    - assert (G0 : Good (sget V s name) (head_old (sget V s name) chain) [] w0 (head_trie chain)).
+      { destruct Hst as [->|E]; [|apply CG; exact E].
+        apply (head_handle_good s name chain P). apply History_Inv; auto. }
+      destruct (block_from_step name s chain P w0 newv big skip ops IH W G0 Hfr HP Hlt Hv Hne) as [w2 [s2 [E [H2 [W2 G2]]]]].
+      rewrite Hb in E. inversion E; subst w2 s2.
+      split; [exact H2|split; [constructor; auto|]]. intros w E'. inversion E'; subst. exact G2.
+    - split; [exact IH|split; [exact W|intros w E; discriminate]].
+    - split; [apply H_other; auto|split; [exact W|]].
+      intros w E. pose proof (History_Inv V name s chain P IH) as HI.
+      apply (head_Good_transfer s _ name chain P w _ HI); [|apply CG; exact E].
+      intros q w0 b O. unfold head_old in O. destruct chain as [|vt ch]; [contradiction|].
+      assert (Hne : name' <> name \/ w0 <> v').
+      { destruct Hc as [Hc|[Hfr HP]]; auto. right.
+        eapply (followed_not_fresh V s name (vt :: ch) P v' HI Hfr HP vt (or_introl eq_refl)); eauto. }
+      destruct (commit_other_agrees V s name' v' es name q w0 Hne) as [Eq _]. rewrite Eq. eapply Reach_get; eauto.
+    - pose proof (History_Inv V name s _ P IH) as HI.
+      split; [eapply H_prune; eauto|split].
+      + unfold all_wfc in *. rewrite Forall_forall in *. intros vt I. apply W.
+        unfold live_after in I. apply in_app_or in I. apply in_or_app. destruct I as [I|I]; auto.
+        right. destruct (root_only name); [destruct I|destruct I as [<-|[]]; left; auto].
+      + destruct newer as [|n0 newer']; [intros w E; discriminate|].
+        intros w E. specialize (CG w E).
+        assert (Eh : head_trie (live_after V name (n0 :: newer') anchor) = head_trie ((n0 :: newer') ++ anchor :: older)) by reflexivity.
+        rewrite Eh.
+        assert (Eo : forall g, head_old g (live_after V name (n0 :: newer') anchor) = head_old g ((n0 :: newer') ++ anchor :: older)) by reflexivity.
+        rewrite Eo.
+        apply (head_Good_transfer s _ name _ P w _ HI); [|exact CG].
+        intros q w0 b O. cbn [app head_old] in O.
+        apply (prune_agrees V s name P base target cps (n0 :: newer') anchor older f nodes HI HPb Hbt Hab Hat Hnew Hanc Hit Hcps n0);
+          [unfold live_after; left; reflexivity|exact O].
+  Qed.
 End PW.
